@@ -210,7 +210,7 @@ class TraceRun:
             raise W.InjectedFault("injected fault at statement site %d" % site)
         self.check_point(site, loc, model, info)
         self.marks.append((site, len(self.w.rec.events)))
-        if info.get("var") and info.get("kind") == "let":
+        if info.get("var") and info.get("kind") in ("let", "after_region", "subqap_call", "importcomm"):
             v = loc.get(info["var"])
             if v is not None and self.w.lc_of(v) is None and info["var"][1] in "IBF":
                 # the library handed back a plain Python value where the plan expects a secret (e.g. a shift by
